@@ -147,8 +147,6 @@ def width_value(prog, e_, w, penv):
     if k_ == "call":
         n_ = e_[1]
         if n_.endswith("UnicodeWidthChar>::width"):
-            if strip(e_[2][0])[0] != "param":
-                raise ValueError("width of something else")
             return ("None",) if w is None else ("Some", w)
         args_ = e_[2]
         def apply(cl_e, val):
@@ -483,9 +481,20 @@ def run(run):
             bid = [b_ for b_, t_ in prog.calls(sb) if t_ is t][0]
             for cond, tk, sw in guards(prog, sb, bid):
                 c = strip(cond)
-                loopish = mentions(c, lambda z: z[0] == "call" and re.search(r"Iterator>::next$|UnicodeWidthChar>::width$", z[1])) and (
-                    c[0] == "discr" or not mentions(c, lambda z: z[0] == "call" and not re.search(
-                        r"Iterator>::next$|UnicodeWidthChar>::width$|IntoIterator>::into_iter$|::chars$|::lines$|deref$", z[1])))
+                # only the discriminants of the iterators' next() and of width() may decide (the loops and `if let Some(w)`);
+                # a test on the character itself (`ch == '\t'`) or on the row built so far makes the expansion conditional
+                loopish = c[0] == "discr" and mentions(c, lambda z: z[0] == "call" and re.search(r"Iterator>::next$|UnicodeWidthChar>::width$", z[1])) and \
+                    not mentions(c, lambda z: z[0] == "bin")
+                if not loopish and t not in chp:
+                    # a redundant test on the *value* of the width around the filler loop (`if width > 1 { for _ in 1..width ..`)
+                    # is harmless exactly when it holds for the one width that has fillers (2): evaluated, not matched
+                    try:
+                        v2 = int(width_value(prog, c, 2, {}))
+                        want_true = (tk != 0) if not isinstance(tk, tuple) else (0 in tk[1])
+                        if bool(v2) == want_true and mentions(c, lambda z: z[0] == "call" and z[1].endswith("UnicodeWidthChar>::width")):
+                            continue
+                    except (ValueError, KeyError, IndexError, TypeError):
+                        pass
                 if not loopish:
                     extra.append((t, expr_str(c)[:100]))
         chain_ok = False
